@@ -238,7 +238,7 @@ def astep (signed : Bool) (env : List AV) (n : Nat) : Op → Option AV
         match q with
         | some q' =>
           if q' < n ∧ k ≤ 64 ∧ 0 ≤ x.lo ∧ (aget env n q').prov = .shr a (64 - k) then
-            some ⟨0, W64 - 1, k, psub (pscale (2 ^ k) x.poly) (pscale W64 (patom q')), .none⟩
+            some ⟨0, W64 - 2 ^ k, k, psub (pscale (2 ^ k) x.poly) (pscale W64 (patom q')), .none⟩
           else none
         | Option.none => none
     else none
